@@ -90,6 +90,8 @@ InitSt == [ conn  |-> {},                          \* peers with a connection (S
             cbind |-> {},                           \* [k, p, r]  client-side binding bookkeeping
             data  |-> [c \in Cells |-> 0],          \* abstract data version per cell (0 = initial)
             rdata |-> [p \in Peers |-> 0],          \* cached data of the peer's server feature s14 (function limit)
+            rucs  |-> [p \in Peers |-> 0],          \* the peer's use cases as last announced by its node management
+                                                    \* (DeviceRemote.UseCases; abstract version, 0 = none)
             \* requests of the local client feature K1 and callbacks (C14).  Request counters are abstracted to
             \* ids 1, 2, .. in the order in which they are first handed out.
             ucs   |-> {},                          \* use-case registry: [e, actor, name, ver, av, sc] (C20)
@@ -150,7 +152,7 @@ Ideal == "ideal"
 
 ConnectOut(st, a) ==
     LET p == a.p IN
-    { Outcome([st EXCEPT !.conn = @ \cup {p}, !.known[p] = {"0"}], NoOut, {}, "ok", Ideal) }
+    { Outcome([st EXCEPT !.conn = @ \cup {p}, !.known[p] = {"0"}, !.rucs[p] = 0], NoOut, {}, "ok", Ideal) }
 
 OfPeer(set, p)      == {e \in set : e.p = p}
 OfPeerEnt(set, p, e) == {x \in set : x.p = p /\ RF[x.c].ent = e}
@@ -166,7 +168,8 @@ RemEventsSt(st, t, set) == {Ev(t, "remove", x.p, "", IF RKnown(st, x.p, x.c) THE
 SetEnt(st, p, e, fs, v) ==
     [st EXCEPT !.known[p] = @ \cup {e},
                !.feats[p] = {x \in @ : RF[x.f].ent # e} \cup {[f |-> f, v |-> v] : f \in fs},
-               !.rdata[p] = IF e = "1" THEN 0 ELSE @]
+               !.rdata[p] = IF e = "1" THEN 0 ELSE @,
+               !.rucs[p] = IF e = "0" THEN 0 ELSE @]
 \* entity e of peer p removed: its features, and exactly the registry entries and client-side references of that entity
 DropEnt(st, p, e) ==
     [st EXCEPT !.known[p] = @ \ {e},
@@ -198,7 +201,7 @@ DisconnectOut(st, a) ==
     LET p == a.p IN
     IF p \notin st.conn
     THEN { Outcome(st, NoOut, {Ev("dev", "remove", p, "", "", "")}, "ok", Ideal) }
-    ELSE { Outcome([st EXCEPT !.conn = @ \ {p}, !.addr = @ \ {p}, !.known[p] = {}, !.feats[p] = {}, !.rdata[p] = 0, !.unans[p] = 0,
+    ELSE { Outcome([st EXCEPT !.conn = @ \ {p}, !.addr = @ \ {p}, !.known[p] = {}, !.feats[p] = {}, !.rdata[p] = 0, !.rucs[p] = 0, !.unans[p] = 0,
                                !.subs = @ \ OfPeer(st.subs, p), !.binds = @ \ OfPeer(st.binds, p),
                                !.csub = @ \ OfPeer(st.csub, p), !.cbind = @ \ OfPeer(st.cbind, p)],
                    NoOut,
@@ -252,7 +255,8 @@ AnnOut(st, a) ==
     ELSE IF a.kind = "reply" THEN
          LET r == ApplyItems(st, p, a.items, 1)
              new0 == IF "0" \in st.known[p] THEN {} ELSE {Ev("ent", "add", p, "0", "", "")}
-         IN { Outcome([r.st EXCEPT !.addr = @ \cup {p}, !.known[p] = @ \cup {"0"},
+         \* (entity "0" is announced again: its node management feature is a fresh object, the cached use cases are gone)
+         IN { Outcome([r.st EXCEPT !.addr = @ \cup {p}, !.known[p] = @ \cup {"0"}, !.rucs[p] = 0,
                                    !.csub = @ \cup {[k |-> "NM", p |-> p, r |-> "nm"]}],
                       OutTo(p, Ack(a, "NM", "nm")),
                       {Ev("dev", "add", p, "", "", "")} \cup new0 \cup r.ev, "ok", Ideal) }
@@ -271,7 +275,7 @@ AnnOut(st, a) ==
              refreshed  == ApplyItems(st, p, a.items \o goneItems, 1)
              nochange   == gone = {} /\ \A i \in DOMAIN a.items : IsOld(a.items[i])
          IN { Outcome(diffOnly.st, OutTo(p, Ack(a, "NM", "nm")), diffOnly.ev, "ok", Ideal),
-              Outcome(refreshed.st, OutTo(p, Ack(a, "NM", "nm")), refreshed.ev, "ok", Ideal) }
+              Outcome([refreshed.st EXCEPT !.rucs[p] = 0], OutTo(p, Ack(a, "NM", "nm")), refreshed.ev, "ok", Ideal) }
             \cup (IF nochange THEN { Outcome(st, OutTo(p, {ResErr("NM", "nm")}), {}, "ok", Ideal) } ELSE {})
 
 ---------------------------------------------------------------------------
@@ -410,11 +414,14 @@ RecvOut0(st, a) ==
          ELSE err
     ELSE IF a.cls \in {"reply", "notify"} THEN
          IF s = "NM" THEN
-              IF a.pl = "usecase" THEN { Outcome(st, OutTo(p, Ack(a, s, c)), {Ev("data", a.cls, p, "", c, "")}, "ok", Ideal) }
+              \* the use cases a peer's node management announces are cached (under that feature only)
+              IF a.pl = "usecase" THEN { Outcome([st EXCEPT !.rucs[p] = IF c = "nm" THEN a.v ELSE @],
+                                                 OutTo(p, Ack(a, s, c)), {Ev("data", a.cls, p, "", c, "")}, "ok", Ideal) }
               ELSE err
          ELSE IF a.pl \in RemoteTypeFns(c)
          THEN { WithCbf(Outcome([(IF a.cls = "reply" THEN Consume(st, s, a.ref) ELSE st)
-                                    EXCEPT !.rdata[p] = IF c = "s14" /\ a.pl = "limit" THEN a.v ELSE @],
+                                    EXCEPT !.rdata[p] = IF c = "s14" /\ a.pl = "limit" THEN a.v ELSE @,
+                                           !.rucs[p] = IF c = "nm" /\ a.pl = "usecase" THEN a.v ELSE @],
                                 OutTo(p, Ack(a, s, c)), {Ev("data", a.cls, p, "", c, s)}, "ok", Ideal),
                         IF a.cls = "reply" THEN RespFired(st, s, a.ref) ELSE {}) }
          ELSE err
@@ -482,7 +489,13 @@ LUnbindOut(st, a) ==
     ELSE { Outcome(st, NoOut, {}, "err", Ideal) }
 
 ---------------------------------------------------------------------------
-Outcomes(st, a) ==
+(* Fault at the SHIP boundary: a peer whose name starts with "m" is mute - its connection cannot be written to  *)
+(* (no write handler), every datagram for it is lost at the sender.  Nothing else changes: its requests are      *)
+(* processed, its registry entries exist, and what the stack sends to the OTHER peers must not depend on it.     *)
+Mute == Peers \cap {"m1", "m2", "m3"}
+Unmuted(o) == [o EXCEPT !.out = [q \in Peers |-> IF q \in Mute THEN {} ELSE o.out[q]]]
+
+Outcomes0(st, a) ==
     CASE a.a = "connect"    -> ConnectOut(st, a)
       [] a.a = "discover"   -> DiscoverOut(st, a)
       [] a.a = "disconnect" -> DisconnectOut(st, a)
@@ -509,6 +522,7 @@ Outcomes(st, a) ==
       [] a.a = "lbind"      -> LBindOut(st, a)
       [] a.a = "lunsub"     -> LUnsubOut(st, a)
       [] a.a = "lunbind"    -> LUnbindOut(st, a)
+Outcomes(st, a) == IF Mute = {} THEN Outcomes0(st, a) ELSE {Unmuted(o) : o \in Outcomes0(st, a)}
 
 ---------------------------------------------------------------------------
 (* Input alphabet offered in state st (valid and invalid inputs alike)     *)
